@@ -7,3 +7,12 @@ import CssVerif.Props.C16
 #print axioms CssVerif.C16.exSel_spec
 #print axioms CssVerif.C16.exSel_run
 #print axioms CssVerif.C16.exSel_text
+#print axioms CssVerif.C16.lexemes_classify
+#print axioms CssVerif.C16.text_is_token_values
+#print axioms CssVerif.C16.tokens_from_text
+#print axioms CssVerif.C16.specificity_from_text
+#print axioms CssVerif.C16.exSel_names
+#print axioms CssVerif.C16.exSel_text_eq
+#print axioms CssVerif.C16.exSel_from_text
+#print axioms CssVerif.C16.exU_wf
+#print axioms CssVerif.C16.exNotF_wf
